@@ -20,7 +20,7 @@ class SubCtx:
         return self.tier == "quick"
 
 
-def image_slices(ctx, pid, variants=genslice.VARIANTS, want=None, n_quick=3, n_thorough=40, dynamic=True):
+def image_slices(ctx, pid, variants=genslice.VARIANTS, want=None, n_quick=8, n_thorough=40, dynamic=True):
     sub = SubCtx(ctx, PROP_SALT[pid])
     big = (not ctx.quick()) or ctx.deep
     g = genslice.run_gen_slice(sub, n_cfg=(n_thorough if big else n_quick), variants=variants, label="generator")
